@@ -30,6 +30,10 @@ PROP = {
     "SymbolicTerm accepts nested": "C15", "the matrix and form setters": "C15",
     "the matrix of GeneralizedfSim": "C13", "bit-flip probabilities given": "C13", "a FusedGate is serialised": "C13",
     "to_qasm raises for circuits": "C13", "MeasurementOutcomes.from_dict and": "C13",
+    "Runge-Kutta stages evaluate": "C16", "StarConnectivityPlacer ignores": "C11", "the default transpiler's acceptance": "C11",
+    "routers re-attach every final": "C11", "fidelity of two mixed states": "C18", "hamming_distance accepts": "C18",
+    "classical Renyi entropy at alpha=0": "C18", "random generators: BCSZ": "C18", "average_gate_fidelity uses": "C18",
+    "entanglement_of_formation of a maximally": "C18",
     "SymbolicTerm applies": "C15", "StateEvolution takes": "C16", "von_neumann_entropy of a state vector": "C18",
 }
 
